@@ -146,6 +146,19 @@ theorem setWithCap_never_evicts_self {H : Hashes} (hH : HashOk H) {m : SegMap V}
   obtain ⟨h1, h2, h3, _⟩ := setWithCap_spec hH inv k v cap
   exact ⟨h1, h2, h3⟩
 
+/-- **Lock footprint of a writer.** `lockTrace` lists the segment locks
+`SetWithCap` takes (own segment, then the segments its toll walk enters, one
+at a time).  The call changes no other segment — so with one lock per segment
+and no table-wide lock (`no_global_lock`) it has nothing else to wait for —
+and when the table is not over capacity or the own segment pays the whole
+toll, it takes exactly its own segment's lock. -/
+theorem setWithCap_lock_footprint {H : Hashes} (hH : HashOk H) {m : SegMap V} (inv : SegInv H m)
+    (k : Nat) (v : V) (cap : Int) :
+    (∀ j, j ∉ m.lockTrace H k v cap → (m.setWithCap H k v cap).segAt j = m.segAt j) ∧
+    ((m.set H k v).len ≤ cap ∨ evictCnt H (m.set H k v) (SegMap.segOf H m k) (H.off k) 2 k = 2 →
+      m.lockTrace H k v cap = [SegMap.segOf H m k]) :=
+  ⟨fun j hj => setWithCap_frame hH inv k v cap j hj, fun h => lockTrace_local hH inv k v cap h⟩
+
 /-- **Sequential capacity bound.** Executed without interleaving, `SetWithCap`
 leaves the counter at or below the capacity (or below where it started, if it
 started above). -/
@@ -288,6 +301,10 @@ example : HashOk realHashes := realHashes_ok
 
 example : SegInv realHashes ((SegMap.new 4 0 : SegMap Nat).setWithCap realHashes 1 10 1) :=
   (setWithCap_never_evicts_self realHashes_ok (segmap_new_spec realHashes 4 0).1 1 10 1).1
+
+-- a sparse table: the writer's own segment cannot pay, the walk takes further locks
+example : ((SegMap.new 4 0 : SegMap Nat).set realHashes 1 1 |>.set realHashes 2 2).lockTrace realHashes 3 3 1 ≠
+    [SegMap.segOf realHashes (SegMap.new 4 0 : SegMap Nat) 3] := by decide
 
 example : CReach 2 ⟨2, 0⟩ ⟨2, 0⟩ ∧ CReach 2 ⟨2, 0⟩ ⟨3, 1⟩ :=
   ⟨CReach.refl _, CReach.step (CReach.refl _) (CStep.insert ⟨2, 0⟩ true)⟩
